@@ -562,7 +562,7 @@ CHECKS["C02"] = _c02
 # AsyncFetch.tla: all interleavings of the fetch protocol (MC) and the
 # pending-set monitor Trace_Async.tla over the recorded async runs
 # ---------------------------------------------------------------------------
-def mc_asyncfetch(prop, tier, seed):
+def mc_asyncfetch(prop, tier, seed, cfg="MC_AsyncFetch.cfg"):
     exe = vlib.build_harness("release")
     wd = os.path.join(vlib.WORK, prop)
     os.makedirs(wd, exist_ok=True)
@@ -570,7 +570,7 @@ def mc_asyncfetch(prop, tier, seed):
     n = 12 if tier == "quick" else 60
     cnt = vlib.gen_cases(exe, cases, "solve:tiny", n, seed + 31, "hints", render=False)
     try:
-        out, st = vlib.tlc("AsyncFetch.tla", "MC_AsyncFetch.cfg", os.path.join(vlib.WORK, f"md_af_{prop}"),
+        out, st = vlib.tlc("AsyncFetch.tla", cfg, os.path.join(vlib.WORK, f"md_af_{prop}"),
                            env_extra={"CASES": cases}, workers=8, timeout=300 if tier == "quick" else 3000,
                            java_opts="-Xss1g -Xmx8g -XX:+UseParallelGC -XX:ParallelGCThreads=4")
     except vlib.ToolError as e:
@@ -587,8 +587,11 @@ def mc_asyncfetch(prop, tier, seed):
             return {}, [("the AsyncFetch model violates one of its properties", path)]
         raise vlib.ToolError("TLC failed on AsyncFetch:\n" + tail)
     return {"asyncfetch_cases": cnt, "asyncfetch_states": st["distinct"], "asyncfetch_transitions": st["states"],
-            "asyncfetch_properties": ["NoDeadlock", "NoDuplicateCall", "MaxIssued", "Causal", "ResultIndependent",
-                                      "EncodeTerminates (liveness)"]}, []
+            "asyncfetch_cfg": cfg,
+            "asyncfetch_properties": (["NoDeadlock", "NoDuplicateCall", "MaxIssued", "Causal", "ResultIndependent",
+                                       "EncodeTerminates (liveness)"] if cfg == "MC_AsyncFetch.cfg" else
+                                      ["NoDeadlock and NoDuplicateCall across cancellation at any quiescent point, "
+                                       "dropped requests and a second solve on the same solver"])}, []
 
 
 def async_monitor(prop, traces):
@@ -653,3 +656,23 @@ CHECKS["C10"] = _c10
 CHECKS["C11"] = _c10
 for _p in ("C10", "C11"):
     META[_p]["text"] += " AsyncFetch.tla (run-to-quiescence model of Encoder + SolverCache) is model checked over all interleavings of tiny universes (no deadlock, no duplicate call, maximal issuance, causality, order-independent result, termination), and Trace_Async.tla follows the first encode of every recorded async run through that model: the multiset of outstanding provider requests must equal the model's at every quiescent point."
+
+
+def _c12_c13(prop, tier, seed, t0):
+    info, viol = mc_asyncfetch(prop, tier, seed, cfg="MC_AsyncFetch_reuse.cfg")
+    rc = check.trace_check(prop, tier, seed, check.TRACE_PLANS[prop], t0, extra_cov=info)
+    ev = json.load(open(os.path.join(vlib.EVIDENCE, f"{prop}.json")))
+    ev["coverage"]["states"] += info.get("asyncfetch_states", 0)
+    ev["coverage"]["transitions"] += info.get("asyncfetch_transitions", 0)
+    for (msg, path) in viol:
+        print(f"VIOLATION property={prop} replay={path}")
+        ev["violations"] = ev.get("violations", 0) + 1
+        rc = 1
+    json.dump(ev, open(os.path.join(vlib.EVIDENCE, f"{prop}.json"), "w"), indent=1)
+    return rc
+
+
+CHECKS["C12"] = _c12_c13
+CHECKS["C13"] = _c12_c13
+for _p in ("C12", "C13"):
+    META[_p]["text"] += " At design level AsyncFetch.tla is model checked with cancellation fired at any quiescent point, all in-flight requests dropped, and a second solve on the same solver: no deadlock and no duplicate call (with CleanupOnDrop = FALSE, the code as shipped, TLC reproduces the deadlock of the second solve; MC_AsyncFetch_asshipped.cfg)."
